@@ -344,6 +344,14 @@ func harnessError(format string, a ...interface{}) {
 	os.Exit(2)
 }
 
+func confirmObs(ts []Tuple, first obs) {
+	for k := 0; k < 2; k++ {
+		if again := judge(ts); again.Symptom != first.Symptom {
+			harnessError("replay of the pre-flight program did not reproduce (first %s / again %s)", first.Symptom, again.Symptom)
+		}
+	}
+}
+
 // confirm re-runs a failing single tuple twice; observations must be identical.
 func confirm(t Tuple, first obs) {
 	for k := 0; k < 2; k++ {
@@ -427,7 +435,6 @@ func Run() int {
 				st.cells[sh] = c
 			}
 			c.total++
-			distinct.Add(t.String())
 			batch = append(batch, t)
 			if len(batch) == fs.Batch {
 				jobs = append(jobs, job{batch})
@@ -440,9 +447,37 @@ func Run() int {
 		total += st.tuples
 	}
 
+	// Pre-flight: the library as a whole must transpile, otherwise every tuple
+	// fails for the same reason and bisecting 10^3..10^4 of them tells nothing more.
+	{
+		var one []Tuple
+		for _, fs := range sp {
+			for _, t := range fs.Tuples {
+				if _, skip := expected(t); !skip {
+					one = append(one, t)
+					break
+				}
+			}
+		}
+		if o := judge(one); o.Symptom == "rejected" || o.Symptom == "transpiler-panic" {
+			confirmObs(one, o)
+			r.Fail("fn=* shape=any symptom="+o.Symptom, "a program that imports strings and calls each of the 19 functions once is not transpiled: "+o.Detail, replay(failure{T: one[0], Symptom: o.Symptom, O: o}))
+			r.Set("evaluations", len(one))
+			r.Set("distinct_nontrivial", len(one))
+			r.Set("exhaustive", false)
+			r.Set("cap_hit", "the library does not transpile; sweep not started")
+			r.Set("rule", "pre-flight only")
+			return r.Finish()
+		}
+	}
+
 	var mu sync.Mutex
 	var fails []failure
 	evals, scripts, capped, interactions := 0, 0, false, 0
+	maxFails, tooMany := 1500, false
+	if r.Thorough() {
+		maxFails = 15000
+	}
 	var run func(ts []Tuple) int // returns number of failing singles found below
 	run = func(ts []Tuple) int {
 		o := judge(ts)
@@ -520,7 +555,13 @@ func Run() int {
 		return 1
 	}
 	drive.Par(len(jobs), func(i int) {
-		if past(deadline) {
+		mu.Lock()
+		if len(fails) > maxFails {
+			tooMany = true
+		}
+		stop := tooMany
+		mu.Unlock()
+		if past(deadline) || stop {
 			mu.Lock()
 			capped = true
 			mu.Unlock()
@@ -529,6 +570,10 @@ func Run() int {
 		run(jobs[i].ts)
 		mu.Lock()
 		evals += len(jobs[i].ts)
+		for _, t := range jobs[i].ts {
+			perFn[t.Fn].cells[shapeOf(t)].done++
+			distinct.Add(t.String())
+		}
 		mu.Unlock()
 		if i%37 == 0 {
 			t := jobs[i].ts[0]
@@ -572,7 +617,9 @@ func Run() int {
 				fmt.Printf("DUMP %s\t%s\t%s\t%s\t%s\t%s\n", k.fn, k.shape, f.Symptom, f.T, f.O.Detail, f.Control)
 			}
 		}
-		if len(fs) == c.total && !capped {
+		// (in a run cut short by the deadline c.done < c.total: the key then speaks
+		// about the evaluated part of the class and the evidence says exhaustive:false)
+		if len(fs) == c.done {
 			note := ""
 			if k.symptom == "backend-quoting" {
 				note = "; the same call with every blank replaced by the letter c agrees with Go, so this is the Bash back-end losing blanks (property C08), not the library's logic"
@@ -618,7 +665,10 @@ func Run() int {
 	}
 	if capped {
 		r.Set("exhaustive", false)
-		r.Set("cap_hit", "sweep stopped at the internal deadline; shape-level keys are not emitted for a partial sweep")
+		r.Set("cap_hit", "sweep stopped at the internal deadline; shape-level keys then cover the evaluated part of a class only")
+		if tooMany {
+			r.Set("cap_hit", fmt.Sprintf("sweep stopped after more than %d failing tuples (the failures found are reported tuple by tuple)", maxFails))
+		}
 	}
 	r.Set("rule", "every argument tuple of each of the 19 functions over the stated alphabets (subject strings over {a,b,blank} up to the tier's length, separators/prefixes/cutsets, replacements, counts -2..4, Join slices of up to 4 elements; TrimSpace additionally over {a,blank,tab,newline}); a case = one call with literal arguments; distinct by function+argument text (all enumerated tuples are distinct); every case is non-trivial in that the expected value is computed by Go's strings and compared byte for byte; per-function distinct expected outputs are recorded against vacuity")
 	r.Assumef("Go's strings package of the toolchain that built the harness is the specification")
@@ -626,7 +676,7 @@ func Run() int {
 	return r.Finish()
 }
 
-type cell struct{ total int }
+type cell struct{ total, done int }
 
 type fnStat struct {
 	tuples, skipped, failed int
